@@ -192,7 +192,15 @@ fn gen_chain(rng: &mut Rng, uid: usize, want_fault: bool, allow_assign: bool) ->
         match k {
             CNode::Index(j) => format!("[{j}]"),
             CNode::Call(0) => "()".into(),
-            CNode::Call(_) => format!("({})", rng.below(9)),
+            // (a function literal with type hints as argument: its spans must be gone again when the
+            // call instruction is emitted, also when type checks are disabled)
+            CNode::Call(_) => {
+                if rng.chance(1, 3) {
+                    "(|p: Number, q: String| -> Number p)".to_string()
+                } else {
+                    format!("({})", rng.below(9))
+                }
+            }
             CNode::CallPass => format!("({cur})"),
             CNode::Null => "?".into(),
             _ => unreachable!(),
@@ -286,9 +294,9 @@ impl Ctx {
         }
         let resp = self.drv.ask(&req);
         let model: Vec<String> = resp.split(' ').skip(2).map(|t| t.split_once('=').map(|x| x.1.to_string()).unwrap_or_default()).collect();
-        self.rep.case(&format!("chainmap {req} {}", kvh::fnv1a(src.as_bytes())), nodes.len() >= 3);
+        self.rep.case(&format!("chainmap {req} {} {}", kvh::fnv1a(src.as_bytes()), settings_label()), nodes.len() >= 3);
         let det = |what: &str, extra: Value| {
-            json!({"replay_kind": "chainmap", "program": src, "first_line": first_line, "indent": indent, "c0": c0, "root": [root.0, root.1],
+            json!({"replay_kind": "chainmap", "settings": [settings().0, settings().1], "program": src, "first_line": first_line, "indent": indent, "c0": c0, "root": [root.0, root.1],
                    "nodes": nodes.iter().map(|(k, r, a, b)| json!([k, r, a, b])).collect::<Vec<_>>(), "model": resp, "what": what, "observed": extra})
         };
         let chunk = match compile(src) {
@@ -398,6 +406,10 @@ impl Ctx {
             let src = lines.join("\n") + "\n";
             let nodes: Vec<(String, usize, usize, usize)> = ch.nodes.iter().map(|n| (n.kind.instr().to_string(), n.rel_line, n.col0, n.col1)).collect();
             self.chainmap_case(&src, first_line, indent, indent + head.len(), ch.root, &nodes, false);
+            // and under another combination of the compiler's code generation flags
+            set_settings(*rng.pick(&[(false, false), (false, false), (true, true), (true, false)]));
+            self.chainmap_case(&src, first_line, indent, indent + head.len(), ch.root, &nodes, false);
+            set_settings(DEFAULT_SETTINGS);
             if self.rep.samples.len() < 12 && i == 3 {
                 self.rep.max_samples += 1;
                 self.rep.sample(json!({"kind": "chainmap", "program": src, "nodes": nodes.iter().map(|(k, r, a, b)| json!([k, r, a, b])).collect::<Vec<_>>()}));
